@@ -237,6 +237,22 @@ func rawChunk(f uint8, csid int, ts uint32, mlen uint32, typ uint8, msid uint32,
 	return append(b, body...)
 }
 
+// wholeMsg: one message in well-formed chunks of 128 bytes (fmt 0 first, fmt 3 continuations).
+func wholeMsg(csid int, typ uint8, msid uint32, body []byte) []byte {
+	b := rawChunk(0, csid, 0, uint32(len(body)), typ, msid, nil)
+	for off := 0; off < len(body); off += 128 {
+		if off > 0 {
+			b = append(b, 3<<6|byte(csid))
+		}
+		e := off + 128
+		if e > len(body) {
+			e = len(body)
+		}
+		b = append(b, body[off:e]...)
+	}
+	return b
+}
+
 func clientCases(quick bool) []protox.Case {
 	var cs []protox.Case
 	// ---- RTMP client (pull and push)
@@ -289,11 +305,46 @@ func clientCases(quick bool) []protox.Case {
 				step = 3
 			}
 			for name, body := range cmds {
-				cs = append(cs, mk(surf, st, "cmd/"+name, "", rawChunk(0, 3, 0, uint32(len(body)), 20, 1, body), -1))
+				cs = append(cs, mk(surf, st, "cmd/"+name, "", wholeMsg(3, 20, 1, body), -1))
 				for _, m := range truncs(body, step) {
 					cs = append(cs, mk(surf, st, "cmd-truncated/"+name, m.desc, rawChunk(0, 3, 0, uint32(len(m.b)), 20, 1, m.b), -1))
 				}
 				cs = append(cs, mk(surf, st, "cmd-amf3/"+name, "", rawChunk(0, 3, 0, uint32(len(body)+1), 17, 1, append([]byte{0}, body...)), -1))
+			}
+			// the description string of an _error is parsed further by the push client (Adobe-style
+			// authentication challenge): the well-formed challenge cut at every offset, and every list of
+			// <= 2 (thorough 3) items over {salt, challenge, opaque, user, x} x {k=v, k=, k, =v}
+			if surf == "rtmp-push" {
+				descr := func(d string) []byte {
+					return amfCmd("_error", 1, aNull, aObj("level", "error", "code", "NetConnection.Connect.Rejected", "description", d))
+				}
+				full := "[ AccessManager.Reject ] : [ authmod=adobe ] : ?reason=needauth&user=&salt=abc&challenge=def&opaque=ghi"
+				for cut := 0; cut <= len(full); cut++ {
+					b := descr(full[:cut])
+					cs = append(cs, mk(surf, st, "error-description/cut", fmt.Sprint(cut), wholeMsg(3, 20, 1, b), -1))
+				}
+				var items []string
+				for _, k := range []string{"salt", "challenge", "opaque", "user", "x"} {
+					items = append(items, k+"=v", k+"=", k, "=v")
+				}
+				maxItems := 2
+				if !quick {
+					maxItems = 3
+				}
+				var genI func(cur []string)
+				genI = func(cur []string) {
+					if len(cur) > 0 {
+						b := descr("[ AccessManager.Reject ] : [ authmod=adobe ] : ?reason=needauth&user=&" + strings.Join(cur, "&"))
+						cs = append(cs, mk(surf, st, "error-description/items", strings.Join(cur, "&"), wholeMsg(3, 20, 1, b), -1))
+					}
+					if len(cur) == maxItems {
+						return
+					}
+					for _, it := range items {
+						genI(append(append([]string{}, cur...), it))
+					}
+				}
+				genI(nil)
 			}
 			for _, v := range []uint32{0, 1, 127, 128, 0x7fffffff, 0x80000000, 0xffffffff} {
 				var p [4]byte
